@@ -2,7 +2,7 @@
 Partial generators (C10): from generator programs and ACL texts to the device's desired configuration.
 
 Mirrors, function by function,
-* `annet/generators/base.py:41-46`   `_split_and_strip` (with `textwrap.dedent`, CPython 3.12 `textwrap.py`)
+* `annet/generators/base.py:44-49`   `_split_and_strip` (with `textwrap.dedent`, CPython 3.12 `textwrap.py`)
 * `annet/generators/base.py:23-38`   `_filter_str`
 * `annet/generators/base.py:59-131`  `TreeGenerator.block / block_if / multiblock / _append_text_cb`
 * `annet/generators/partial.py:69-97` `PartialGenerator.__call__` (tuple flattening `annlib/lib.py:221-226`,
@@ -25,7 +25,7 @@ import AnnetModel.Model.Implicit
 namespace Annet.Gen
 open Annet Annet.Offside Annet.Acl
 
-/-! ### `_split_and_strip` (base.py:41-46) -/
+/-! ### `_split_and_strip` (base.py:44-49) -/
 
 /-- the characters `textwrap` treats as indentation: `[ \t]` -/
 def isBlankTab (c : Char) : Bool := c == ' ' || c == '\t'
@@ -69,11 +69,12 @@ def dedentLines (lines : List (List Char)) : List (List Char) :=
   | none => ls                                   -- `if margin:` is false
   | some mg => ls.map fun l => if mg.isPrefixOf l then l.drop mg.length else l   -- `re.sub(r'(?m)^' + margin, '', text)`
 
-/-- `_split_and_strip(text)`: multi-line texts are dedented, stripped as a whole and split; a text without a
-newline is one row, taken verbatim (leading blanks included — see `C10_yield_paths_false_leading_blank`). -/
+/-- `_split_and_strip(text)` (base.py:44-49, since fix e9aec0a): multi-line texts are dedented, stripped as a whole
+and split; a text without a newline is one row, stripped as well (before the fix it was taken verbatim, so a leading
+blank re-parented the row — `Spec.splitAndStripOld`, `C10_yield_paths_old_rule_false`). -/
 def splitAndStrip (text : List Char) : List (List Char) :=
   if text.contains '\n' then splitNl (strip (joinNl (dedentLines (splitNl text))))
-  else [text]
+  else [strip text]
 
 /-! ### generator programs -/
 
